@@ -37,7 +37,9 @@ def main():
             how = "git apply"
             if a.returncode:
                 sh("git -C %s checkout -- . && git -C %s clean -fdq" % (WT, WT))
-                results[sid] = {"applies": False, "note": "no longer applies to the repaired tree"}
+                results[sid] = {"applies": False, "note": meta.get("note") or "no longer applies to the repaired tree"}
+                meta["detected_by"], meta["run"] = [], results[sid]
+                json.dump(meta, open(os.path.join(d, "meta.json"), "w"), indent=1)
                 print(sid, "DOES NOT APPLY")
                 continue
             res = {"applies": True, "applied_with": how, "checks": {}}
